@@ -18,8 +18,16 @@
 (* and sync: TRUE = a delivery barrier before every command (everything     *)
 (* sent so far has arrived; after the first end: everything is torn down),  *)
 (* FALSE = the commands are fired back to back and race the proxy.          *)
-(* A side that has no end command is "silent": the source returns when its  *)
-(* Recv ends, the initiator just keeps receiving.                           *)
+(* A side that has no end command does not end by itself; src says what the *)
+(* source does when its Recv loop sees the proxy's half-close:              *)
+(*   coop   it returns (Temporal's stream sender does)                      *)
+(*   silent it ignores the half-close and returns only when its stream's    *)
+(*          context is done (a handler that is busy sending / waiting)      *)
+(* The initiator just keeps receiving.  The property does not depend on the *)
+(* peer's good will: "the other side is closed and the handler returns".    *)
+(* Payloads: what the k-th message carries is a binding dimension (the      *)
+(* relay is content-oblivious in the design): "inc" watermarks increase,    *)
+(* "flat" they repeat and go back (heartbeats, duplicate acks).             *)
 (* A script = (message counts, end mode, position of the end relative to    *)
 (* the other direction, what is attempted after the end, fault).            *)
 (* Forwarder.tla model-checks the proxy against every script; ForwarderSim  *)
@@ -33,7 +41,9 @@ CONSTANTS K,          \* at most K messages per direction before the first end
           Faults,     \* \subseteq {"unkMsg", "unkAck", "tgtSendFail", "srcSendFail", "openFail"}
           Lifetime,   \* BOOLEAN: scripts with L
           Post,       \* BOOLEAN: scripts that go on after the first end (one more send / the other side's end)
-          Syncs       \* \subseteq BOOLEAN
+          Syncs,      \* \subseteq BOOLEAN
+          SrcKinds    \* \subseteq {"coop", "silent"}
+Payloads == {"inc", "flat"}
 
 C(c, m) == [c |-> c, m |-> m]
 NoFault == [k |-> "none", p |-> 0]
@@ -50,13 +60,13 @@ PostOf(e) ==
    ELSE IF e.c = "IE" THEN {<<C("S", "-")>>} \cup {<<x>> : x \in SrcEndCmds}
    ELSE {<<C("S", "-")>>, <<C("I", "-")>>})
 EndScripts ==
-  UNION {{[cmds |-> PreCmds(q) \o <<e>> \o t, fault |-> NoFault, sync |-> s] : q \in Pre, t \in PostOf(e), s \in Syncs}
+  UNION {{[cmds |-> PreCmds(q) \o <<e>> \o t, fault |-> NoFault, sync |-> s, src |-> k] : q \in Pre, t \in PostOf(e), s \in Syncs, k \in SrcKinds}
          : e \in FirstEnds}
 FaultDir(k) == IF k \in {"unkMsg", "tgtSendFail"} THEN "S" ELSE "I"
 FaultScripts ==
-  UNION {UNION {{[cmds |-> PreCmds(q), fault |-> [k |-> k, p |-> p], sync |-> s] : p \in 1..Cnt(q, FaultDir(k)), s \in Syncs}
+  UNION {UNION {{[cmds |-> PreCmds(q), fault |-> [k |-> k, p |-> p], sync |-> s, src |-> sk] : p \in 1..Cnt(q, FaultDir(k)), s \in Syncs, sk \in SrcKinds}
                 : q \in Pre}
          : k \in Faults \ {"openFail"}}
-OpenFailScripts == IF "openFail" \in Faults THEN {[cmds |-> <<>>, fault |-> [k |-> "openFail", p |-> 0], sync |-> TRUE]} ELSE {}
+OpenFailScripts == IF "openFail" \in Faults THEN {[cmds |-> <<>>, fault |-> [k |-> "openFail", p |-> 0], sync |-> TRUE, src |-> "coop"]} ELSE {}
 Scripts == EndScripts \cup FaultScripts \cup OpenFailScripts
 =============================================================================
